@@ -449,3 +449,121 @@ func TestC17_Includes(t *testing.T) {
 		}, cl...)
 	})
 }
+
+// The entry file itself is subject to the same rule as included files: only a regular
+// file whose name ends in ".dae" may be read. Included files pass a glob filter first,
+// the entry does not, so it is probed on its own.
+func TestC17_EntryName(t *testing.T) {
+	base := os.Getenv("VERIF_RUNDIR")
+	if base == "" {
+		base = os.TempDir()
+	}
+	base, _ = filepath.Abs(base)
+	type nameCase struct {
+		Name  string
+		IsDae bool
+		Dir   bool
+	}
+	names := []nameCase{
+		{"config.dae", true, false}, {"a-b_c.dae", true, false}, {"x.y.dae", true, false},
+		{"config.conf", false, false}, {"config", false, false}, {"config.dae.bak", false, false}, {"config.DAE", false, false},
+		{"config.Dae", false, false}, {"config.dae~", false, false}, {"configdae", false, false}, {"config.dae.txt", false, false},
+		{"config.da", false, false}, {"dae", false, false}, {"config.daee", false, false}, {"config.dae ", false, false},
+		{"x.dae", true, true}, {"confdir", false, true},
+	}
+	rapid.Check(t, func(t *rapid.T) {
+		root := filepath.Join(base, "c17entry", fmt.Sprintf("c%d", c17IncCounter.Add(1)))
+		entryDir := filepath.Join(root, "entry")
+		if err := os.MkdirAll(filepath.Join(entryDir, "d1"), 0o755); err != nil {
+			t.Fatalf("harness: %v", err)
+		}
+		defer os.RemoveAll(root)
+		nc := rapid.SampledFrom(names).Draw(t, "name")
+		sub := rapid.SampledFrom([]string{"", "d1"}).Draw(t, "subdir") // the entry's own directory is the entry directory
+		dir := filepath.Join(entryDir, sub)
+		entry := filepath.Join(dir, nc.Name)
+		child := filepath.Join(dir, "child.dae")
+		if err := os.WriteFile(child, []byte("s1 {\n  child_item\n}\n"), 0o600); err != nil {
+			t.Fatalf("harness: %v", err)
+		}
+		broken := rapid.IntRange(0, 2).Draw(t, "broken") == 0
+		withInclude := rapid.Bool().Draw(t, "with_include")
+		tag := "ENTRYCANARY"
+		if nc.IsDae && !nc.Dir {
+			tag = "entry_item"
+			broken = false
+		}
+		text := "s1 {\n  " + tag + "_1\n  k: " + tag + "_2\n}\n"
+		if withInclude {
+			text += "include {\n  " + rapid.SampledFrom([]string{"child.dae", "'*.dae'", child}).Draw(t, "pattern") + "\n}\n"
+		}
+		if broken {
+			text += "ENTRYCANARYBROKEN { { : ->\n"
+		}
+		if nc.Dir {
+			if err := os.MkdirAll(entry, 0o755); err != nil {
+				t.Fatalf("harness: %v", err)
+			}
+			_ = os.WriteFile(filepath.Join(entry, "inner.dae"), []byte("s1 {\n  ENTRYCANARY_inner\n}\n"), 0o600)
+		} else if err := os.WriteFile(entry, []byte(text), 0o600); err != nil {
+			t.Fatalf("harness: %v", err)
+		}
+		// a relative spelling of the same entry must behave the same
+		arg := entry
+		if rapid.IntRange(0, 3).Draw(t, "unclean") == 0 {
+			arg = dir + "/./" + nc.Name
+		}
+		o := c17Merge(arg)
+		desc := fmt.Sprintf("entry %q (regular .dae file: %v, directory: %v, broken: %v, include: %v)\n%s", strings.ReplaceAll(arg, root, "<root>"), nc.IsDae && !nc.Dir, nc.Dir, broken, withInclude, text)
+		if o.Panic != nil {
+			t.Fatalf("Merge panicked: %v\n%s\n%s", o.Panic, o.Stack, desc)
+		}
+		dump, _, _ := c17IncDump(o.Secs)
+		if nc.IsDae && !nc.Dir {
+			// a proper entry must load (self-include through '*.dae' is a cycle: rejection allowed)
+			selfGlob := withInclude && strings.Contains(text, "'*.dae'")
+			if o.Err != nil {
+				if !selfGlob {
+					t.Fatalf("a valid .dae entry was rejected: %v\n%s", o.Err, desc)
+				}
+			} else {
+				if selfGlob {
+					t.Fatalf("an entry that includes itself through a glob was accepted\n%s\n%s", dump, desc)
+				}
+				want := "entry_item_1\x00k:entry_item_2"
+				if withInclude {
+					want += "\x00child_item"
+				}
+				var got []string
+				for _, s := range o.Secs {
+					if s.Name == "s1" {
+						got = c17IncItems(s.Items)
+					}
+				}
+				if strings.Join(got, "\x00") != want {
+					t.Fatalf("entry merged as %q\n%s", got, desc)
+				}
+			}
+			vkCase("C17.entryname", "", nil, "dae_entry")
+			return
+		}
+		// anything else must be rejected without being read
+		if o.Err == nil {
+			t.Fatalf("an entry that is not a regular .dae file was read and merged:\n%s\n%s", dump, desc)
+		}
+		msg := o.Err.Error()
+		if msg == "" || o.Secs != nil {
+			t.Fatalf("unclean rejection: %q secs=%v", msg, o.Secs)
+		}
+		if strings.Contains(msg, "ENTRYCANARY") || strings.Contains(msg, "failed to parse config file") {
+			t.Fatalf("the content of a non-.dae entry shows in the error, so it was read: %v\n%s", o.Err, desc)
+		}
+		cls := "non_dae_entry"
+		if nc.Dir {
+			cls = "directory_entry"
+		}
+		vkCase("C17.entryname", fmt.Sprintf("%s|%s|%v|%v", nc.Name, sub, broken, withInclude), func() any {
+			return map[string]any{"entry": nc.Name, "err": strings.ReplaceAll(msg, root, "<root>")}
+		}, cls)
+	})
+}
